@@ -10,6 +10,8 @@ from .util import jcopy, canon
 def vkey(v):
     "Violation class used for grouping, minimisation and replay verification"
     parts = v['subkind'].split(':')
+    if v['oracle'] == 'leak' and parts[0].startswith('unbounded-'):
+        return (v['property'], v['oracle'], 'unbounded')
     return (v['property'], v['oracle'], ':'.join(parts[:2]) if v['oracle'] == 'result' else parts[0])
     # e.g. ('C08', 'result', 'history-changes-result:markup'), ('C08', 'result', 'history-changes-callback-view:markup'),
     #      ('C08', 'leak', 'containers'), ('C13', 'editor-view', 'line')
